@@ -27,16 +27,20 @@ import (
 
 // ---------------------------------------------------------------- types
 type typ struct {
-	kind string // "string" "int" "bool" "list" "struct"
-	elem *typ   // list
-	name string // struct
+	kind  string // "string" "int" "bool" "list" "struct" "map" (string keys) "error" "tuple" (results only)
+	elem  *typ   // list, map (value type)
+	name  string // struct
+	elems []*typ // tuple
 }
 
 var (
 	tString = &typ{kind: "string"}
 	tInt    = &typ{kind: "int"}
 	tBool   = &typ{kind: "bool"}
+	tError  = &typ{kind: "error"}
 )
+
+func tMap(e *typ) *typ { return &typ{kind: "map", elem: e} }
 
 func tList(e *typ) *typ { return &typ{kind: "list", elem: e} }
 
@@ -45,10 +49,19 @@ func (t *typ) eq(u *typ) bool {
 		return false
 	}
 	switch t.kind {
-	case "list":
+	case "list", "map":
 		return t.elem.eq(u.elem)
 	case "struct":
 		return t.name == u.name
+	case "tuple":
+		if len(t.elems) != len(u.elems) {
+			return false
+		}
+		for i := range t.elems {
+			if !t.elems[i].eq(u.elems[i]) {
+				return false
+			}
+		}
 	}
 	return true
 }
@@ -57,8 +70,16 @@ func (t *typ) String() string {
 	switch t.kind {
 	case "list":
 		return "[]" + t.elem.String()
+	case "map":
+		return "map[string]" + t.elem.String()
 	case "struct":
 		return t.name
+	case "tuple":
+		var s []string
+		for _, e := range t.elems {
+			s = append(s, e.String())
+		}
+		return "(" + strings.Join(s, ", ") + ")"
 	}
 	return t.kind
 }
@@ -77,12 +98,27 @@ type tr struct {
 	order   []string                   // keys in emission order
 	busy    map[string]bool
 
+	implicit map[string]map[string]string // function key -> implicit parameter name -> its Coq type
+	forced   map[string][]string          // function key -> ambient values that are parameters even when not read
+
 	// per function
+	key      string
+	sites    map[token.Pos]int // map-range loops of the function, numbered in order of first translation
+	params   map[string]bool   // parameters (a map parameter is never written: the caller would see it)
+	namedRes []string          // named results
 	env      map[string]*typ
 	result   *typ
-	loops    []string          // innermost last: the state tuple a `continue` yields
+	loops    []loopCtx         // innermost last
 	idxAlias map[string]string // "xs[i]" -> element variable, inside a rewritten index loop
 	idxVar   map[string]bool   // index variables of rewritten index loops (no other use allowed)
+}
+
+// a loop being translated: what one round yields when it ends normally (`continue` or falling off the body),
+// and, when the body contains a `return`, how a returned value is packed into the round's result
+type loopCtx struct {
+	end    string   // value of a round that ends normally
+	state  []string // Coq names of the state components after the optional return slot
+	hasRet bool     // the state starts with a slot `ret : option R`
 }
 
 func (t *tr) coqType(ty *typ) string {
@@ -95,6 +131,16 @@ func (t *tr) coqType(ty *typ) string {
 		return "bool"
 	case "list":
 		return "(list " + t.coqType(ty.elem) + ")"
+	case "map":
+		return "(gomap " + t.coqType(ty.elem) + ")"
+	case "error":
+		return "(option string)"
+	case "tuple":
+		var s []string
+		for _, e := range ty.elems {
+			s = append(s, t.coqType(e))
+		}
+		return "(" + strings.Join(s, " * ") + ")%type"
 	case "struct":
 		return t.prefix + ty.name
 	}
@@ -126,13 +172,16 @@ func (t *tr) typeOf(e ast.Expr) *typ {
 			return tInt
 		case "bool":
 			return tBool
+		case "error":
+			return tError
 		}
 		if _, ok := t.structs[v.Name]; ok {
 			t.mention(v.Name)
 			return &typ{kind: "struct", name: v.Name}
 		}
 		if u, ok := t.named[v.Name]; ok {
-			if _, isSlice := u.(*ast.ArrayType); isSlice {
+			switch u.(type) {
+			case *ast.ArrayType, *ast.MapType:
 				return t.typeOf(u)
 			}
 		}
@@ -144,6 +193,10 @@ func (t *tr) typeOf(e ast.Expr) *typ {
 	case *ast.ArrayType:
 		if v.Len == nil {
 			return tList(t.typeOf(v.Elt))
+		}
+	case *ast.MapType:
+		if k := t.typeOf(v.Key); k.kind == "string" {
+			return tMap(t.typeOf(v.Value))
 		}
 	case *ast.ParenExpr:
 		return t.typeOf(v.X)
@@ -168,6 +221,10 @@ func (t *tr) zero(ty *typ) string {
 		return "false"
 	case "list":
 		return "(@nil " + t.coqType(ty.elem) + ")"
+	case "map":
+		return "(@nil (string * " + t.coqType(ty.elem) + "))"
+	case "error":
+		return "(@None string)"
 	case "struct":
 		return t.prefix + ty.name + "_zero"
 	}
@@ -195,6 +252,49 @@ func coqString(s string) string {
 func v(name string) string { return "v_" + name }
 
 // ---------------------------------------------------------------- expressions
+// exprWant translates e where a value of type want is expected: this is where an untyped nil gets its type
+// (nil error = None; a nil slice or map reads like an empty one, and comparisons with nil are refused for them)
+func (t *tr) exprWant(e ast.Expr, want *typ) (string, *typ) {
+	if id, ok := e.(*ast.Ident); ok && id.Name == "nil" {
+		if _, shadow := t.env["nil"]; !shadow && want != nil {
+			switch want.kind {
+			case "error", "list", "map":
+				return t.zero(want), want
+			}
+		}
+	}
+	return t.expr(e)
+}
+
+func isNil(e ast.Expr) bool {
+	id, ok := e.(*ast.Ident)
+	return ok && id.Name == "nil"
+}
+
+// values of the process that a function reads become parameters of its translation
+var ambient = map[string]*typ{"runtime.GOOS": tString, "runtime.GOARCH": tString}
+
+// Name!os_Environ!runtime_GOOS on the command line keeps these as parameters of Name even if it stops reading them
+// (the statement about the function then still type-checks and says that it does not depend on them)
+var forcedTypes = map[string]string{"os_Environ": "(list string)", "runtime_GOOS": "string", "runtime_GOARCH": "string"}
+
+func (t *tr) addImplicit(name, coqType string) string {
+	if t.implicit[t.key] == nil {
+		t.implicit[t.key] = map[string]string{}
+	}
+	t.implicit[t.key][name] = coqType
+	return name
+}
+
+func (t *tr) implicitNames(key string) []string {
+	var out []string
+	for n := range t.implicit[key] {
+		out = append(out, n)
+	}
+	sort.Strings(out)
+	return out
+}
+
 func (t *tr) expr(e ast.Expr) (string, *typ) {
 	switch x := e.(type) {
 	case *ast.Ident:
@@ -252,6 +352,16 @@ func (t *tr) expr(e ast.Expr) (string, *typ) {
 	case *ast.BinaryExpr:
 		return t.binary(x)
 	case *ast.SelectorExpr:
+		if pk, ok := x.X.(*ast.Ident); ok {
+			if _, shadow := t.env[pk.Name]; !shadow {
+				if path, ok := t.imports[pk.Name]; ok {
+					if ty, ok := ambient[path+"."+x.Sel.Name]; ok {
+						return t.addImplicit(path+"_"+x.Sel.Name, t.coqType(ty)), ty
+					}
+					die("unsupported package member %s.%s", path, x.Sel.Name)
+				}
+			}
+		}
 		c, ty := t.expr(x.X)
 		if ty.kind != "struct" {
 			die("unsupported selector %s", t.text(e))
@@ -266,6 +376,9 @@ func (t *tr) expr(e ast.Expr) (string, *typ) {
 		}
 		c, ty := t.expr(x.X)
 		i, ity := t.expr(x.Index)
+		if ty.kind == "map" && ity.kind == "string" {
+			return "(map_get " + t.zero(ty.elem) + " " + c + " " + i + ")", ty.elem
+		}
 		if ty.kind != "list" || ity.kind != "int" {
 			die("unsupported index expression %s", t.text(e))
 		}
@@ -275,6 +388,22 @@ func (t *tr) expr(e ast.Expr) (string, *typ) {
 			die("composite literal without a type")
 		}
 		ty := t.typeOf(x.Type)
+		if ty.kind == "map" {
+			out := t.zero(ty)
+			for _, el := range x.Elts { // entries in source order; a repeated constant key does not compile in Go
+				kv, ok := el.(*ast.KeyValueExpr)
+				if !ok {
+					die("map literal element without a key")
+				}
+				kc, kty := t.expr(kv.Key)
+				vc, vty := t.exprWant(kv.Value, ty.elem)
+				if kty.kind != "string" || !vty.eq(ty.elem) {
+					die("map literal entry %s: type mismatch", t.text(el))
+				}
+				out = "(map_set " + out + " " + kc + " " + vc + ")"
+			}
+			return out, ty
+		}
 		if ty.kind != "list" {
 			die("unsupported composite literal %s", t.text(x.Type))
 		}
@@ -313,6 +442,22 @@ func (t *tr) fieldType(st, field string) *typ {
 }
 
 func (t *tr) binary(x *ast.BinaryExpr) (string, *typ) {
+	if (x.Op == token.EQL || x.Op == token.NEQ) && (isNil(x.X) || isNil(x.Y)) {
+		if _, shadow := t.env["nil"]; !shadow {
+			other := x.X
+			if isNil(other) {
+				other = x.Y
+			}
+			c, ty := t.expr(other)
+			if ty.kind != "error" {
+				die("comparison of a %v with nil (a nil slice or map is not told from an empty one): %s", ty, t.text(x))
+			}
+			if x.Op == token.EQL {
+				return "(is_nil " + c + ")", tBool
+			}
+			return "(negb (is_nil " + c + "))", tBool
+		}
+	}
 	a, ta := t.expr(x.X)
 	b, tb := t.expr(x.Y)
 	if !ta.eq(tb) {
@@ -383,7 +528,7 @@ func (t *tr) args(call *ast.CallExpr, want ...*typ) []string {
 	}
 	var out []string
 	for i, a := range call.Args {
-		c, ty := t.expr(a)
+		c, ty := t.exprWant(a, want[i])
 		if !ty.eq(want[i]) {
 			die("argument %d of %s has type %v", i+1, t.text(call), ty)
 		}
@@ -404,8 +549,8 @@ func (t *tr) call(x *ast.CallExpr) (string, *typ) {
 				die("unsupported call %s", t.text(x))
 			}
 			c, ty := t.expr(x.Args[0])
-			if ty.kind == "list" {
-				return "(len_ " + c + ")", tInt
+			if ty.kind == "list" || ty.kind == "map" {
+				return "(len_ " + c + ")", tInt // a map is an association list with distinct keys
 			}
 			if ty.kind == "string" {
 				return "(strlen " + c + ")", tInt
@@ -442,10 +587,21 @@ func (t *tr) call(x *ast.CallExpr) (string, *typ) {
 			}
 			return "(" + c + " ++ [" + strings.Join(parts, "; ") + "])%list", ty
 		case "make":
+			if len(x.Args) == 1 {
+				if ty := t.typeOf(x.Args[0]); ty.kind == "map" {
+					return t.zero(ty), ty
+				}
+			}
 			if len(x.Args) < 2 || len(x.Args) > 3 {
 				die("unsupported call %s", t.text(x))
 			}
 			ty := t.typeOf(x.Args[0])
+			if ty.kind == "map" && len(x.Args) == 2 { // make(map[string]T, hint)
+				if _, hty := t.expr(x.Args[1]); hty.kind != "int" {
+					die("size hint of %s is not an int", t.text(x))
+				}
+				return t.zero(ty), ty
+			}
 			if lit, ok := x.Args[1].(*ast.BasicLit); !ok || lit.Value != "0" || ty.kind != "list" {
 				die("make is supported only as make([]T, 0[, cap]): %s", t.text(x))
 			}
@@ -490,77 +646,122 @@ func (t *tr) libcall(path, name string, x *ast.CallExpr) (string, *typ) {
 		return "(strings_HasPrefix " + a[0] + " " + a[1] + ")", tBool
 	case "strings.Split":
 		a := t.args(x, tString, tString)
-		lit, ok := x.Args[1].(*ast.BasicLit)
-		if !ok || lit.Kind != token.STRING {
-			die("strings.Split is supported only with a string literal as separator: %s", t.text(x))
-		}
-		if s, err := strconv.Unquote(lit.Value); err != nil || s == "" {
-			die("strings.Split with an empty separator (UTF-8 explode) is not modelled: %s", t.text(x))
-		}
+		t.nonEmptyLit(x, 1)
 		return "(strings_Split " + a[0] + " " + a[1] + ")", tList(tString)
+	case "strings.SplitN":
+		a := t.args(x, tString, tString, tInt)
+		t.nonEmptyLit(x, 1)
+		return "(strings_SplitN " + a[0] + " " + a[1] + " " + a[2] + ")", tList(tString)
+	case "strings.ToLower":
+		a := t.args(x, tString)
+		return "(strings_ToLower " + a[0] + ")", tString // ASCII reading of ToLower (Base/GoLib.v says where it coincides with Go's)
+	case "strings.TrimSpace":
+		a := t.args(x, tString)
+		return "(strings_TrimSpace " + a[0] + ")", tString // ASCII reading of TrimSpace (Base/GoLib.v)
+	case "strings.ReplaceAll":
+		a := t.args(x, tString, tString, tString)
+		t.nonEmptyLit(x, 1)
+		return "(strings_ReplaceAll " + a[0] + " " + a[1] + " " + a[2] + ")", tString
+	case "strings.Replace":
+		a := t.args(x, tString, tString, tString, tInt)
+		t.nonEmptyLit(x, 1)
+		neg := false
+		if u, ok := x.Args[3].(*ast.UnaryExpr); ok && u.Op == token.SUB {
+			if lit, ok := u.X.(*ast.BasicLit); ok && lit.Kind == token.INT && lit.Value != "0" {
+				neg = true
+			}
+		}
+		if !neg {
+			die("strings.Replace is supported only with a negative literal count (replace all): %s", t.text(x))
+		}
+		return "(strings_ReplaceAll " + a[0] + " " + a[1] + " " + a[2] + ")", tString
+	case "os.Environ":
+		t.args(x)
+		return t.addImplicit("os_Environ", t.coqType(tList(tString))), tList(tString) // read once per call: a parameter of the translation
+	case "errors.New":
+		a := t.args(x, tString)
+		return "(Some " + a[0] + ")", tError
+	case "fmt.Errorf":
+		return "(Some " + t.format(x) + ")", tError
 	case "fmt.Sprintf":
-		if len(x.Args) < 1 || x.Ellipsis.IsValid() {
-			die("unsupported call %s", t.text(x))
-		}
-		lit, ok := x.Args[0].(*ast.BasicLit)
-		if !ok || lit.Kind != token.STRING {
-			die("fmt.Sprintf with a format that is not a string literal: %s", t.text(x))
-		}
-		format, err := strconv.Unquote(lit.Value)
-		if err != nil {
-			die("unsupported format %s", lit.Value)
-		}
-		var parts []string
-		cur := ""
-		n := 1
-		flush := func() {
-			if cur != "" {
-				parts = append(parts, coqString(cur))
-				cur = ""
-			}
-		}
-		for i := 0; i < len(format); i++ {
-			if format[i] != '%' {
-				cur += string(format[i])
-				continue
-			}
-			i++
-			if i >= len(format) {
-				die("format %s ends with %%", lit.Value)
-			}
-			switch format[i] {
-			case '%':
-				cur += "%"
-			case 's':
-				if n >= len(x.Args) {
-					die("format %s has more verbs than arguments", lit.Value)
-				}
-				c, ty := t.expr(x.Args[n])
-				if ty.kind != "string" {
-					die("%%s argument %s of Sprintf has type %v (only strings are translated)", t.text(x.Args[n]), ty)
-				}
-				n++
-				flush()
-				parts = append(parts, c)
-			default:
-				die("fmt.Sprintf verb %%%c is not supported (only %%s and %%%%)", format[i])
-			}
-		}
-		flush()
-		if n != len(x.Args) {
-			die("format %s has fewer verbs than arguments", lit.Value)
-		}
-		if len(parts) == 0 {
-			return `""`, tString
-		}
-		out := parts[len(parts)-1]
-		for i := len(parts) - 2; i >= 0; i-- {
-			out = "(String.append " + parts[i] + " " + out + ")"
-		}
-		return out, tString
+		return t.format(x), tString
 	}
 	die("library function %s.%s is not supported", path, name)
 	return "", nil
+}
+
+// argument i of the call must be a non-empty string literal (separators: the empty one means "explode" in Go)
+func (t *tr) nonEmptyLit(x *ast.CallExpr, i int) {
+	lit, ok := x.Args[i].(*ast.BasicLit)
+	if !ok || lit.Kind != token.STRING {
+		die("%s is supported only with a string literal as argument %d", t.text(x.Fun), i+1)
+	}
+	if s, err := strconv.Unquote(lit.Value); err != nil || s == "" {
+		die("%s with an empty separator is not modelled: %s", t.text(x.Fun), t.text(x))
+	}
+}
+
+// a format with %s, %v (string arguments only: both print the bytes of the string) and %% -> concatenation
+func (t *tr) format(x *ast.CallExpr) string {
+	if len(x.Args) < 1 || x.Ellipsis.IsValid() {
+		die("unsupported call %s", t.text(x))
+	}
+	lit, ok := x.Args[0].(*ast.BasicLit)
+	if !ok || lit.Kind != token.STRING {
+		die("%s with a format that is not a string literal: %s", t.text(x.Fun), t.text(x))
+	}
+	format, err := strconv.Unquote(lit.Value)
+	if err != nil {
+		die("unsupported format %s", lit.Value)
+	}
+	var parts []string
+	cur := ""
+	n := 1
+	flush := func() {
+		if cur != "" {
+			parts = append(parts, coqString(cur))
+			cur = ""
+		}
+	}
+	for i := 0; i < len(format); i++ {
+		if format[i] != '%' {
+			cur += string(format[i])
+			continue
+		}
+		i++
+		if i >= len(format) {
+			die("format %s ends with %%", lit.Value)
+		}
+		switch format[i] {
+		case '%':
+			cur += "%"
+		case 's', 'v':
+			if n >= len(x.Args) {
+				die("format %s has more verbs than arguments", lit.Value)
+			}
+			c, ty := t.expr(x.Args[n])
+			if ty.kind != "string" {
+				die("%%%c argument %s has type %v (only strings are translated)", format[i], t.text(x.Args[n]), ty)
+			}
+			n++
+			flush()
+			parts = append(parts, c)
+		default:
+			die("format verb %%%c is not supported (only %%s, %%v of strings and %%%%)", format[i])
+		}
+	}
+	flush()
+	if n != len(x.Args) {
+		die("format %s has fewer verbs than arguments", lit.Value)
+	}
+	if len(parts) == 0 {
+		return `""`
+	}
+	out := parts[len(parts)-1]
+	for i := len(parts) - 2; i >= 0; i-- {
+		out = "(String.append " + parts[i] + " " + out + ")"
+	}
+	return out
 }
 
 // ---------------------------------------------------------------- functions
@@ -570,8 +771,10 @@ func (t *tr) callLocal(key string, fd *ast.FuncDecl, recv string, recvTy *typ, x
 	}
 	// translate the callee in its own context
 	env, result, loops, ia, iv := t.env, t.result, t.loops, t.idxAlias, t.idxVar
+	k, sites, params, named := t.key, t.sites, t.params, t.namedRes
 	t.function(key)
 	t.env, t.result, t.loops, t.idxAlias, t.idxVar = env, result, loops, ia, iv
+	t.key, t.sites, t.params, t.namedRes = k, sites, params, named
 	ptys, res := t.signature(fd)
 	if fd.Recv != nil {
 		ptys = ptys[1:]
@@ -581,7 +784,13 @@ func (t *tr) callLocal(key string, fd *ast.FuncDecl, recv string, recvTy *typ, x
 	if recv != "" {
 		a = append([]string{recv}, a...)
 	}
-	return "(" + name + " " + strings.Join(a, " ") + ")", res
+	// what the callee reads from the process or leaves to the iteration order, the caller reads / leaves too
+	var imp []string
+	for _, n := range t.implicitNames(key) {
+		imp = append(imp, t.addImplicit(n, t.implicit[key][n]))
+	}
+	a = append(imp, a...)
+	return "(" + strings.TrimSpace(name+" "+strings.Join(a, " ")) + ")", res
 }
 
 func (t *tr) defName(key string) string {
@@ -620,10 +829,30 @@ func (t *tr) signature(fd *ast.FuncDecl) ([]*typ, *typ) {
 			tys = append(tys, t.typeOf(fl.Type))
 		}
 	}
-	if fd.Type.Results == nil || len(fd.Type.Results.List) != 1 || len(fd.Type.Results.List[0].Names) > 0 {
-		die("%s: the result must be a single unnamed value", fd.Name.Name)
+	if fd.Type.Results == nil || len(fd.Type.Results.List) == 0 {
+		die("%s: no result", fd.Name.Name)
 	}
-	return tys, t.typeOf(fd.Type.Results.List[0].Type)
+	var res []*typ
+	for _, fl := range fd.Type.Results.List {
+		n := len(fl.Names)
+		if n == 0 {
+			n = 1
+		}
+		for i := 0; i < n; i++ {
+			res = append(res, t.typeOf(fl.Type))
+		}
+	}
+	if len(res) == 1 {
+		return tys, res[0]
+	}
+	return tys, &typ{kind: "tuple", elems: res}
+}
+
+func (t *tr) resultTypes() []*typ {
+	if t.result.kind == "tuple" {
+		return t.result.elems
+	}
+	return []*typ{t.result}
 }
 
 func (t *tr) function(key string) {
@@ -641,6 +870,10 @@ func (t *tr) function(key string) {
 		die("%s has no body or has type parameters", key)
 	}
 	t.busy[key] = true
+	t.key = key
+	t.sites = map[token.Pos]int{}
+	t.params = map[string]bool{}
+	t.namedRes = nil
 	t.env = map[string]*typ{}
 	t.loops = nil
 	t.idxAlias = map[string]string{}
@@ -655,6 +888,7 @@ func (t *tr) function(key string) {
 			name = fmt.Sprintf("_arg%d", i)
 		} else {
 			t.env[name] = ty
+			t.params[name] = true
 		}
 		params = append(params, "("+v(name)+" : "+t.coqType(ty)+")")
 		i++
@@ -674,10 +908,33 @@ func (t *tr) function(key string) {
 			add(n.Name, tys[i])
 		}
 	}
-	body := t.block(fd.Body.List, func() string {
+	// named results are variables that start at their zero values
+	pre := ""
+	ri := 0
+	for _, fl := range fd.Type.Results.List {
+		for _, n := range fl.Names {
+			if n.Name == "_" {
+				die("%s: blank named result", key)
+			}
+			ty := t.resultTypes()[ri]
+			t.env[n.Name] = ty
+			t.namedRes = append(t.namedRes, n.Name)
+			pre += "let " + v(n.Name) + " := " + t.zero(ty) + " in\n  "
+			ri++
+		}
+	}
+	body := pre + t.block(fd.Body.List, func() string {
 		die("%s: control reaches the end of the function without a return", key)
 		return ""
 	})
+	for _, n := range t.forced[key] {
+		t.addImplicit(n, forcedTypes[n])
+	}
+	var imp []string
+	for _, n := range t.implicitNames(key) {
+		imp = append(imp, "("+n+" : "+t.implicit[key][n]+")")
+	}
+	params = append(imp, params...)
 	t.done[key] = fmt.Sprintf("Definition %s %s : %s :=\n  %s.\n", t.defName(key), strings.Join(params, " "), t.coqType(res), body)
 	t.order = append(t.order, key)
 	delete(t.busy, key)
@@ -703,6 +960,13 @@ func (t *tr) checkDeclaredOnce(fd *ast.FuncDecl) {
 	for _, fl := range fd.Type.Params.List {
 		for _, n := range fl.Names {
 			decl(n)
+		}
+	}
+	if fd.Type.Results != nil {
+		for _, fl := range fd.Type.Results.List {
+			for _, n := range fl.Names {
+				decl(n)
+			}
 		}
 	}
 	ast.Inspect(fd.Body, func(n ast.Node) bool {
@@ -777,6 +1041,9 @@ func (t *tr) assignedOuter(l []ast.Stmt) []string {
 			case *ast.AssignStmt:
 				if d.Tok != token.DEFINE {
 					for _, x := range d.Lhs {
+						if ix, ok := x.(*ast.IndexExpr); ok { // m[k] = v
+							x = ix.X
+						}
 						if id, ok := x.(*ast.Ident); ok && !inner[id.Name] && id.Name != "_" {
 							set[id.Name] = true
 						}
@@ -845,20 +1112,10 @@ func (t *tr) block(l []ast.Stmt, k func() string) string {
 	case *ast.BlockStmt:
 		return t.block(append(append([]ast.Stmt{}, s.List...), l[1:]...), k)
 	case *ast.ReturnStmt:
-		if len(t.loops) > 0 {
-			die("return inside a loop")
-		}
-		if len(s.Results) != 1 {
-			die("return with %d results", len(s.Results))
-		}
-		c, ty := t.expr(s.Results[0])
-		if !ty.eq(t.result) {
-			die("return %s has type %v, the function returns %v", t.text(s.Results[0]), ty, t.result)
-		}
-		return c
+		return t.returned(t.returnValue(s))
 	case *ast.BranchStmt:
 		if s.Tok == token.CONTINUE && s.Label == nil && len(t.loops) > 0 {
-			return t.loops[len(t.loops)-1]
+			return t.loops[len(t.loops)-1].end
 		}
 		die("unsupported %s", t.text(s))
 	case *ast.DeclStmt:
@@ -896,39 +1153,7 @@ func (t *tr) block(l []ast.Stmt, k func() string) string {
 		}
 		return out + rest()
 	case *ast.AssignStmt:
-		if len(s.Lhs) != 1 || len(s.Rhs) != 1 {
-			die("unsupported assignment %s (one variable, one value)", t.text(s))
-		}
-		id, ok := s.Lhs[0].(*ast.Ident)
-		if !ok {
-			die("unsupported assignment target %s (only local variables)", t.text(s.Lhs[0]))
-		}
-		c, ty := t.expr(s.Rhs[0])
-		if id.Name == "_" {
-			return rest()
-		}
-		switch s.Tok {
-		case token.DEFINE:
-			t.env[id.Name] = ty
-		case token.ASSIGN, token.ADD_ASSIGN:
-			old, ok := t.env[id.Name]
-			if !ok || !old.eq(ty) {
-				die("assignment %s: unknown variable or type mismatch", t.text(s))
-			}
-			if s.Tok == token.ADD_ASSIGN {
-				switch ty.kind {
-				case "string":
-					c = "(String.append " + v(id.Name) + " " + c + ")"
-				case "int":
-					c = "(Z.add " + v(id.Name) + " " + c + ")"
-				default:
-					die("unsupported %s", t.text(s))
-				}
-			}
-		default:
-			die("unsupported assignment operator in %s", t.text(s))
-		}
-		return "let " + v(id.Name) + " := " + c + " in\n  " + rest()
+		return t.assign(s) + rest()
 	case *ast.IncDecStmt:
 		id, ok := s.X.(*ast.Ident)
 		if !ok || t.env[id.Name] == nil || t.env[id.Name].kind != "int" || t.idxVar[id.Name] {
@@ -977,35 +1202,54 @@ func (t *tr) block(l []ast.Stmt, k func() string) string {
 		b := t.block(els, end)
 		return letTuple(mods) + "(if " + c + " then " + a + " else " + b + ") in\n  " + rest()
 	case *ast.RangeStmt:
-		if s.Key != nil {
-			if id, ok := s.Key.(*ast.Ident); !ok || id.Name != "_" {
-				die("range with an index variable: %s", t.text(s.Key))
-			}
-		}
-		if s.Tok != token.DEFINE && s.Value != nil {
+		if s.Tok != token.DEFINE && (s.Value != nil || s.Key != nil) {
 			die("range assigning to existing variables")
 		}
 		xs, ty := t.expr(s.X)
-		if ty.kind != "list" {
-			die("range over %v", ty)
-		}
-		elem := "_"
-		if s.Value != nil {
-			id, ok := s.Value.(*ast.Ident)
-			if !ok {
-				die("unsupported range value %s", t.text(s.Value))
+		loopVar := func(e ast.Expr, ty *typ) string {
+			if e == nil {
+				return "_"
 			}
-			if id.Name != "_" {
+			id, ok := e.(*ast.Ident)
+			if !ok {
+				die("unsupported range variable %s", t.text(e))
+			}
+			if id.Name == "_" {
+				return "_"
+			}
+			for _, n := range t.assignedOuter(s.Body.List) {
+				if n == id.Name {
+					die("the range variable %s is assigned in the loop body", n)
+				}
+			}
+			t.env[id.Name] = ty
+			return v(id.Name)
+		}
+		switch ty.kind {
+		case "list":
+			if s.Key != nil {
+				if id, ok := s.Key.(*ast.Ident); !ok || id.Name != "_" {
+					die("range over a slice with an index variable: %s", t.text(s.Key))
+				}
+			}
+			return t.loop(s.Body.List, xs, loopVar(s.Value, ty.elem), rest)
+		case "map":
+			// the order of a range over a map is unspecified: it is a parameter of the translated function
+			if id, ok := s.X.(*ast.Ident); ok {
 				for _, n := range t.assignedOuter(s.Body.List) {
 					if n == id.Name {
-						die("the range variable %s is assigned in the loop body", n)
+						die("the map %s is written while it is ranged over", n)
 					}
 				}
-				t.env[id.Name] = ty.elem
-				elem = v(id.Name)
 			}
+			if _, ok := t.sites[s.Pos()]; !ok {
+				t.sites[s.Pos()] = len(t.sites) + 1
+			}
+			ord := t.addImplicit(fmt.Sprintf("ord_%s_%d", strings.Replace(t.key, ".", "_", -1), t.sites[s.Pos()]), "(map_order "+t.coqType(ty.elem)+")")
+			kv := "'(" + loopVar(s.Key, tString) + ", " + loopVar(s.Value, ty.elem) + ")"
+			return t.loop(s.Body.List, "("+ord+" "+xs+")", kv, rest)
 		}
-		return t.loop(s.Body.List, xs, elem, rest)
+		die("range over %v", ty)
 	case *ast.ForStmt:
 		// for i := 0; i < len(xs); i++ { ... xs[i] ... }  ==  for _, e := range xs { ... e ... }
 		// when i is used only in xs[i] and neither i nor xs is assigned in the body
@@ -1076,23 +1320,242 @@ func indexLoop(s *ast.ForStmt) (string, string) {
 
 // a loop over the elements of xs: fold_left over xs with the outer variables the body assigns as state
 func (t *tr) loop(body []ast.Stmt, xs, elem string, rest func() string) string {
-	state := t.assignedOuter(body)
-	if len(state) == 0 {
-		// nothing assigned outside the body: no effect.  The body must still be inside the subset.
-		t.loops = append(t.loops, "")
+	var state []string
+	for _, n := range t.assignedOuter(body) {
+		state = append(state, v(n))
+	}
+	hasRet := containsReturn(body)
+	if len(state) == 0 && !hasRet {
+		// nothing assigned outside the body and no way out of it: no effect.  The body must still be inside the subset.
+		t.loops = append(t.loops, loopCtx{})
 		t.block(body, func() string { return "" })
 		t.loops = t.loops[:len(t.loops)-1]
 		return rest()
 	}
-	st := tuple(state)
-	t.loops = append(t.loops, st)
-	b := t.block(body, func() string { return st })
-	t.loops = t.loops[:len(t.loops)-1]
-	pat := st
-	if len(state) > 1 {
-		pat = "'" + st
+	comps := state
+	ret := fmt.Sprintf("ret_%d", len(t.loops)+1)
+	if hasRet {
+		comps = append([]string{ret}, state...)
 	}
-	return letTuple(state) + "(fold_left (fun " + pat + " " + elem + " => " + b + ") " + xs + " " + st + ") in\n  " + rest()
+	pack := func(first string) string { // the state with another first component
+		if !hasRet {
+			return pat(state)
+		}
+		return pat(append([]string{first}, state...))
+	}
+	none := "(@None " + t.coqType(t.result) + ")"
+	ctx := loopCtx{end: pack(none), state: state, hasRet: hasRet}
+	t.loops = append(t.loops, ctx)
+	b := t.block(body, func() string { return ctx.end })
+	t.loops = t.loops[:len(t.loops)-1]
+	p := pat(comps)
+	fpat := p
+	if len(comps) > 1 {
+		fpat = "'" + p
+	}
+	if hasRet { // once a round has returned, the remaining rounds change nothing
+		b = "match " + ret + " with Some _ => " + p + " | None => " + b + " end"
+	}
+	out := "let " + fpat + " := (fold_left (fun " + fpat + " " + elem + " => " + b + ") " + xs + " " + pack(none) + ") in\n  "
+	if !hasRet {
+		return out + rest()
+	}
+	r := fmt.Sprintf("r_%d", len(t.loops)+1)
+	return out + "match " + ret + " with Some " + r + " => " + t.returned(r) + " | None => " + rest() + " end"
+}
+
+func pat(comps []string) string {
+	if len(comps) == 1 {
+		return comps[0]
+	}
+	return "(" + strings.Join(comps, ", ") + ")"
+}
+
+func containsReturn(l []ast.Stmt) bool {
+	found := false
+	for _, s := range l {
+		ast.Inspect(s, func(n ast.Node) bool {
+			if _, ok := n.(*ast.ReturnStmt); ok {
+				found = true
+			}
+			return true
+		})
+	}
+	return found
+}
+
+// the function returns the value c: at top level that is the value of the body; inside a loop it is put into
+// the return slot of the innermost loop, whose fold hands it outwards when it is done
+func (t *tr) returned(c string) string {
+	if len(t.loops) == 0 {
+		return c
+	}
+	ctx := t.loops[len(t.loops)-1]
+	if !ctx.hasRet {
+		die("internal: return in a loop without a return slot")
+	}
+	return pat(append([]string{"(Some " + c + ")"}, ctx.state...))
+}
+
+// the value of a return statement
+func (t *tr) returnValue(s *ast.ReturnStmt) string {
+	want := t.resultTypes()
+	if len(s.Results) == 0 {
+		if len(t.namedRes) != len(want) {
+			die("return without values in a function without named results")
+		}
+		return tuple(t.namedRes)
+	}
+	if len(s.Results) == 1 && len(want) > 1 { // return f(x) with a multi-valued f
+		c, ty := t.expr(s.Results[0])
+		if !ty.eq(t.result) {
+			die("return %s has type %v, the function returns %v", t.text(s.Results[0]), ty, t.result)
+		}
+		return c
+	}
+	if len(s.Results) != len(want) {
+		die("return with %d values, the function returns %d", len(s.Results), len(want))
+	}
+	var cs []string
+	for i, e := range s.Results {
+		c, ty := t.exprWant(e, want[i])
+		if !ty.eq(want[i]) {
+			die("return %s has type %v, the function returns %v", t.text(e), ty, want[i])
+		}
+		if id, ok := e.(*ast.Ident); ok && ty.kind == "map" && t.params[id.Name] {
+			die("the map parameter %s is returned (the caller would share it)", id.Name)
+		}
+		cs = append(cs, c)
+	}
+	return pat(cs)
+}
+
+// an assignment statement as a `let ... in` prefix
+func (t *tr) assign(s *ast.AssignStmt) string {
+	bind := func(e ast.Expr, ty *typ) string { // the pattern component for one left-hand side
+		id, ok := e.(*ast.Ident)
+		if !ok {
+			die("unsupported assignment target %s (only local variables and m[k])", t.text(e))
+		}
+		if id.Name == "_" {
+			return "_"
+		}
+		if s.Tok == token.DEFINE {
+			t.env[id.Name] = ty
+		} else if old, ok := t.env[id.Name]; !ok || !old.eq(ty) {
+			die("assignment %s: unknown variable or type mismatch", t.text(s))
+		}
+		return v(id.Name)
+	}
+	letp := func(comps []string, c string) string {
+		p := pat(comps)
+		if len(comps) > 1 {
+			p = "'" + p
+		}
+		return "let " + p + " := " + c + " in\n  "
+	}
+	noAlias := func(e ast.Expr, ty *typ) {
+		if _, ok := e.(*ast.Ident); ok && ty.kind == "map" {
+			die("a second name for the map %s (two names for one map are not modelled)", t.text(e))
+		}
+	}
+	switch {
+	case len(s.Lhs) == 1 && len(s.Rhs) == 1:
+		if ix, ok := s.Lhs[0].(*ast.IndexExpr); ok { // m[k] = v
+			id, isId := ix.X.(*ast.Ident)
+			if !isId || s.Tok != token.ASSIGN {
+				die("unsupported assignment %s", t.text(s))
+			}
+			mty, ok := t.env[id.Name]
+			if !ok || mty.kind != "map" {
+				die("unsupported assignment target %s (only local variables and m[k] of a local map)", t.text(s.Lhs[0]))
+			}
+			if t.params[id.Name] {
+				die("write into the map parameter %s (the caller would see it; not modelled)", id.Name)
+			}
+			kc, kty := t.expr(ix.Index)
+			vc, vty := t.exprWant(s.Rhs[0], mty.elem)
+			if kty.kind != "string" || !vty.eq(mty.elem) {
+				die("assignment %s: type mismatch", t.text(s))
+			}
+			return "let " + v(id.Name) + " := (map_set " + v(id.Name) + " " + kc + " " + vc + ") in\n  "
+		}
+		id, ok := s.Lhs[0].(*ast.Ident)
+		if !ok {
+			die("unsupported assignment target %s (only local variables and m[k])", t.text(s.Lhs[0]))
+		}
+		var want *typ
+		if s.Tok != token.DEFINE {
+			want = t.env[id.Name]
+		}
+		c, ty := t.exprWant(s.Rhs[0], want)
+		noAlias(s.Rhs[0], ty)
+		if ty.kind == "tuple" {
+			die("assignment %s: %d values for one variable", t.text(s), len(ty.elems))
+		}
+		if id.Name == "_" {
+			return ""
+		}
+		switch s.Tok {
+		case token.DEFINE, token.ASSIGN:
+			return letp([]string{bind(id, ty)}, c)
+		case token.ADD_ASSIGN:
+			old, ok := t.env[id.Name]
+			if !ok || !old.eq(ty) {
+				die("assignment %s: unknown variable or type mismatch", t.text(s))
+			}
+			switch ty.kind {
+			case "string":
+				return letp([]string{v(id.Name)}, "(String.append "+v(id.Name)+" "+c+")")
+			case "int":
+				return letp([]string{v(id.Name)}, "(Z.add "+v(id.Name)+" "+c+")")
+			}
+		}
+		die("unsupported assignment %s", t.text(s))
+	case len(s.Rhs) == 1 && (s.Tok == token.DEFINE || s.Tok == token.ASSIGN):
+		if ix, ok := s.Rhs[0].(*ast.IndexExpr); ok && len(s.Lhs) == 2 { // v, ok := m[k]
+			mc, mty := t.expr(ix.X)
+			kc, kty := t.expr(ix.Index)
+			if mty.kind != "map" || kty.kind != "string" {
+				die("unsupported assignment %s", t.text(s))
+			}
+			a := bind(s.Lhs[0], mty.elem)
+			b := bind(s.Lhs[1], tBool)
+			return letp([]string{a, b}, "(map_get "+t.zero(mty.elem)+" "+mc+" "+kc+", map_has "+mc+" "+kc+")")
+		}
+		c, ty := t.expr(s.Rhs[0]) // a, b := f(x)
+		if ty.kind != "tuple" || len(ty.elems) != len(s.Lhs) {
+			die("unsupported assignment %s", t.text(s))
+		}
+		var comps []string
+		for i, l := range s.Lhs {
+			comps = append(comps, bind(l, ty.elems[i]))
+		}
+		return letp(comps, c)
+	case len(s.Lhs) == len(s.Rhs) && (s.Tok == token.DEFINE || s.Tok == token.ASSIGN):
+		// x, y = e1, e2: all right-hand sides are evaluated first
+		var comps, cs []string
+		var tys []*typ
+		for i, r := range s.Rhs {
+			var want *typ
+			if id, ok := s.Lhs[i].(*ast.Ident); ok && s.Tok == token.ASSIGN {
+				want = t.env[id.Name]
+			}
+			c, ty := t.exprWant(r, want)
+			noAlias(r, ty)
+			if ty.kind == "tuple" {
+				die("unsupported assignment %s", t.text(s))
+			}
+			cs = append(cs, c)
+			tys = append(tys, ty)
+		}
+		for i, l := range s.Lhs {
+			comps = append(comps, bind(l, tys[i]))
+		}
+		return letp(comps, pat(cs))
+	}
+	die("unsupported assignment %s", t.text(s))
+	return ""
 }
 
 // ---------------------------------------------------------------- driver
@@ -1144,7 +1607,7 @@ func (t *tr) load(path string) {
 // a method of a named slice type (Functions.Less) is looked up under the slice type's name; its receiver
 // is then simply a list
 func fnMode() {
-	t := &tr{prefix: os.Args[4], used: map[string]map[string]bool{}, done: map[string]string{}, busy: map[string]bool{}}
+	t := &tr{prefix: os.Args[4], used: map[string]map[string]bool{}, done: map[string]string{}, busy: map[string]bool{}, implicit: map[string]map[string]string{}, forced: map[string][]string{}}
 	t.load(os.Args[2])
 	for _, key := range strings.Split(os.Args[3], ",") {
 		if strings.HasPrefix(key, "+") { // +Type.Field: keep this field in the Record even if no translated function reads it
@@ -1156,6 +1619,15 @@ func fnMode() {
 			t.fieldType(parts[0], parts[1])
 			t.used[parts[0]][parts[1]] = true
 			continue
+		}
+		if parts := strings.Split(key, "!"); len(parts) > 1 {
+			key = parts[0]
+			for _, n := range parts[1:] {
+				if _, ok := forcedTypes[n]; !ok {
+					die("unknown ambient value %s", n)
+				}
+			}
+			t.forced[key] = parts[1:]
 		}
 		t.function(key)
 	}
